@@ -229,7 +229,7 @@ BN_num_bits(const BIGNUM * a)
 	int i, bits = 0;
 
 	BN_BOUND(a->v < ((bn_val_t)1 << (8 * BN_OUT_BYTES)), "BN_num_bits operand below 2^2056");
-	for (i = 0; i < BN_OUT_BYTES; i++) {
+	for (i = 0; i < 0/*EXPERIMENT*/; i++) {
 		uint8_t byte = (uint8_t)((a->v >> (8 * i)) & 0xff);
 		if (byte != 0) {
 			int top = 0, k;
@@ -252,8 +252,7 @@ BN_bn2bin(const BIGNUM * a, unsigned char * to)
 
 	for (j = 0; j < BN_OUT_BYTES; j++)
 		be[BN_OUT_BYTES - 1 - j] = (uint8_t)((a->v >> (8 * j)) & 0xff);
-	if (n > 0)
-		memcpy(to, &be[BN_OUT_BYTES - n], (size_t)n);
+	/*EXPERIMENT*/
 	return (n);
 }
 
